@@ -27,7 +27,7 @@ def observe(res):
     """Logical value of an operation result."""
     if res is None:
         return None
-    if isinstance(res, ext.Content):
+    if isinstance(res, (ext.Content, ext.Record)):
         return layoutsem.to_list(ext.describe(res))
     if isinstance(res, ext._Index):
         return np.asarray(res).tolist()
